@@ -6,6 +6,7 @@ import re
 
 from sa.loader import recv, norm, norm1, walk_shallow, own_nodes, call_name, AnalysisError, is_logging_stmt
 from sa.tables import fold, Unfoldable, compiled_patterns, parse_regex, OPS
+from re._constants import MAXREPEAT
 from sa.rulekit import (nodes_calling, node_calls, nodes_where, return_nodes, handlers_in,
                         handler_reraises, is_const)
 
@@ -23,6 +24,9 @@ EXPECT_ISO = {('Y', False): None, ('M', False): None, ('D', False): 86400,
               ('H', True): 3600, ('M', True): 60, ('S', True): 1}
 
 
+BOUNDED_WS = []
+
+
 def _groups(tree):
     """-> list of dicts {group, unit, unit_optional, group_optional, after_T, ws_before_unit}
     in pattern order, plus the number of whitespace tokens."""
@@ -34,8 +38,11 @@ def _groups(tree):
         if op is OPS.MAX_REPEAT:
             lo, hi, sub = av
             subl = list(sub)
-            return len(subl) == 1 and subl[0][0] is OPS.IN and \
+            is_ws = len(subl) == 1 and subl[0][0] is OPS.IN and \
                 any(x == (OPS.CATEGORY, OPS.CATEGORY_SPACE) for x in subl[0][1])
+            if is_ws and not (lo == 0 and hi == MAXREPEAT):
+                BOUNDED_WS.append((lo, hi))     # `\s?`, `\s+`, `\s{0,2}`: not "any amount of whitespace"
+            return is_ws
         return False
 
     def walk(seq, optional, state):
@@ -245,7 +252,9 @@ def run(ck):
         trad = iso = None
         for nm, (pat, flags, st) in pats.items():
             tree = parse_regex(pat, flags)
+            del BOUNDED_WS[:]
             groups, ws, state = _groups(tree)
+            state['bounded_ws'] = list(BOUNDED_WS)
             if 'P' in state.get('literals', []):
                 iso = (nm, pat, flags, st, groups, ws, state)
             else:
@@ -315,6 +324,11 @@ def run(ck):
                 okf = bool(fl & re.ASCII) and bool(fl & re.IGNORECASE) and bool(fl & re.VERBOSE)
                 ck.ob(R2, f"{TU}:{nm} :: flags", okf, f"flags = {fl!r}", None, f"{mod.path}:{st.lineno}")
                 inner_ws = all(g['ws_before_unit'] for g in groups) and ws >= 2 * len(groups)
+                bounded_here = state.get('bounded_ws', [])
+                ck.ob(R2, f"{TU}:{nm} :: whitespace gaps accept any amount", not bounded_here,
+                      "every whitespace gap of the pattern is `\\s*`" if not bounded_here else
+                      f"a whitespace gap is bounded {bounded_here}: '2h  5m' (two blanks, as timestr(.., sep='  ') "
+                      "renders it) is no longer a valid duration", None, f"{mod.path}:{st.lineno}")
                 ck.ob(R2, f"{TU}:{nm} :: inner whitespace", inner_ws,
                       f"{ws} whitespace tokens; whitespace allowed between number and unit: "
                       f"{[g['ws_before_unit'] for g in groups]}", None, f"{mod.path}:{st.lineno}")
